@@ -54,7 +54,7 @@ def _call_with_timeout(fn, seconds=5.0, limit=300_000):
 
 
 # ------------------------------------------------------------------------------------------------ extends
-PYVAL = {"a": "a", "b": 0, "c": ""}
+PYVAL = {"a": {"expon": [1.0]}, "b": 0, "c": {"const": [2.0]}}      # falsy values and dict-valued (distribution) values
 BACK = {repr(v): k for k, v in PYVAL.items()}
 
 
@@ -345,7 +345,11 @@ def cls_cases():
             nr = sum(1 for c in reg if c.__name__ == name)
             case = {"c": "cls", "name": name, "nb": nb, "nr": nr, "res": "ok", "right": True}
             try:
-                got = find_class(name=name, optional_class_list=list(reg))
+                # the classes reach the lookup the way a user's do: through Runner.class_register
+                rn = SequentialRunner(settings={"simulation": {"markets": [], "agents": [], "sessions": []}}, prng=random.Random(0))
+                for c in reg:
+                    rn.class_register(c)
+                got = find_class(name=name, optional_class_list=list(rn.registered_classes))
                 want = expected_builtin(name) if nb else next((c for c in reg if c.__name__ == name), None)
                 case["right"] = bool(got is want)
             except AttributeError:
